@@ -103,3 +103,29 @@ func ClassifyDistance(observed uint32, p RecPred) (class string, f5, f6 bool) {
 	}
 	return "other", false, false
 }
+
+// BlankAccumulatedDistance removes record.distance of records whose
+// compressed_speed_distance expands from a content: that value depends on the
+// process-lifetime accumulator (known finding F5, decided in C18) and cannot be
+// compared between two decodes of the same input.
+func BlankAccumulatedDistance(ct *Content) {
+	if ct == nil {
+		return
+	}
+	prof := Profile()
+	dist, csd := prof.Field(20, 5), prof.Field(20, 8)
+	if dist == nil || csd == nil {
+		return
+	}
+	for si := range ct.Slots {
+		s := &ct.Slots[si]
+		if s.Global != 20 {
+			continue
+		}
+		for j, m := range s.Msgs {
+			if v := m[csd.Sindex]; v.K == 'a' && len(v.A) == 3 {
+				s.Msgs[j][dist.Sindex].N = 0
+			}
+		}
+	}
+}
